@@ -636,7 +636,25 @@ def recv_program():
     return {"functions": F, "classes": classes, "instances": inst}
 
 
+def reg_program():
+    """Every placement of a function that has an absolute reference (C14)."""
+    prog = recv_program()
+
+    def body(local):
+        return [["bind", local, V], use(local, "p"), ["ret", var(local)]]
+
+    prog["functions"] += [
+        fn("top", ["p"], body("x")),
+        fn("deco", ["p"], body("x"), kind="deco"),
+    ]
+    prog["closures"] = [
+        {"factory": "mk", "free": {"c0": 41}, "fn": fn("inner", ["p"], body("x"), free=["c0"])},
+    ]
+    return prog
+
+
 PROGRAMS = {
+    "reg": reg_program,
     "recv": recv_program,
     "loops": loops_program,
     "forms": forms_program,
